@@ -21,5 +21,12 @@ WRAP float w_fr_wr (const float* p, int o, const Vec3<float>* pt, float rad) { r
 WRAP float w_fr_wr_exc (const float* p, int o, const Vec3<float>* pt, float rad) { float r = 0; W_TRY r = mk (p, o).worldRadiusExc (*pt, rad); W_CATCH return r; }
 WRAP float w_fr_aspect (const float* p, int o) { return mk (p, o).aspect (); }
 WRAP float w_fr_aspect_exc (const float* p, int o) { float r = 0; W_TRY r = mk (p, o).aspectExc (); W_CATCH return r; }
+WRAP float w_fr_z2d (const float* p, int o, long z, long zmin, long zmax) { return mk (p, o).ZToDepth (z, zmin, zmax); }
+WRAP float w_fr_z2d_exc (const float* p, int o, long z, long zmin, long zmax) { float r = 0; W_TRY r = mk (p, o).ZToDepthExc (z, zmin, zmax); W_CATCH return r; }
 WRAP long w_fr_d2z (const float* p, int o, float depth, long zmin, long zmax) { return mk (p, o).DepthToZ (depth, zmin, zmax); }
 WRAP long w_fr_d2z_exc (const float* p, int o, float depth, long zmin, long zmax) { long r = 0; W_TRY r = mk (p, o).DepthToZExc (depth, zmin, zmax); W_CATCH return r; }
+
+// set(near,far,fovx,fovy,aspect) / setExc: the seven stored parameters after the call
+static void dump (const Frustum<float>& f, float* r) { r[0] = f.nearPlane (); r[1] = f.farPlane (); r[2] = f.left (); r[3] = f.right (); r[4] = f.top (); r[5] = f.bottom (); r[6] = f.orthographic () ? 1.f : 0.f; }
+WRAP void w_fr_setfov (const float* p, int o, const float* a, float* r) { Frustum<float> f = mk (p, o); f.set (a[0], a[1], a[2], a[3], a[4]); dump (f, r); }
+WRAP void w_fr_setfov_exc (const float* p, int o, const float* a, float* r) { Frustum<float> f = mk (p, o); W_TRY f.setExc (a[0], a[1], a[2], a[3], a[4]); dump (f, r); W_CATCH }
